@@ -85,6 +85,14 @@ class SpentFuelPool(ExcoreStructure):
 
         super().add(assem, loc)
 
+        # the core's name look-ups also answer for the assemblies in the pool (a discharged assembly
+        # stays in them); one that is put into the pool directly has to be entered here
+        core = getattr(self.r, "core", None)
+        if core is not None and assem.getName() not in core.assembliesByName:
+            core.assembliesByName[assem.getName()] = assem
+            for b in assem:
+                core.blocksByName[b.getName()] = b
+
     def getAssembly(self, name):
         """Get a specific assembly by name."""
         for a in self:
